@@ -67,6 +67,13 @@ Merge(f, u) == [k \in AKeys |-> IF k \in DOMAIN u
                                 THEN (IF u[k] = "null" THEN "none" ELSE u[k])
                                 ELSE f[k]]
 
+\* a sequence of calls <<id, update>> applied in order, as seen by one id
+RECURSIVE FoldCalls(_, _, _, _)
+FoldCalls(f, id, cs, i) ==
+    IF i > Len(cs) THEN f
+    ELSE FoldCalls(IF cs[i][1] = id THEN Merge(f, cs[i][2]) ELSE f, id, cs, i + 1)
+Filled(mode) == mode \in {"cold", "warm"}
+
 \* ---- observations -----------------------------------------------------------
 Present(f)  == {k \in AKeys : f[k] # "none"}
 Pairs(f)    == {<<k, f[k]>> : k \in Present(f)}
@@ -86,13 +93,13 @@ State(st)   == {<<id, Pairs(attrs[st][id])>> : id \in {i \in Ids : Present(attrs
 Init ==
     \E mode \in InitModes :
     /\ attrs   = [st \in Stores |-> [id \in Ids |-> [k \in AKeys |->
-                     IF mode = "cold" /\ id \in InitIds /\ k = "a" THEN InitVal ELSE "none"]]]
-    /\ touched = [st \in Stores |-> IF mode = "cold" THEN InitIds \cap Ids ELSE {}]
+                     IF Filled(mode) /\ id \in InitIds /\ k = "a" THEN InitVal ELSE "none"]]]
+    /\ touched = [st \in Stores |-> IF Filled(mode) THEN InitIds \cap Ids ELSE {}]
     /\ cached  = {}
     /\ aliased = {}
     /\ leak    = FALSE
     /\ hist    = IF Gen THEN << [op |-> "Init", mode |-> mode,
-                                 pre |-> IF mode = "cold" THEN {<<id, {<<"a", InitVal>>}>> : id \in InitIds \cap Ids} ELSE {}] >>
+                                 pre |-> IF Filled(mode) THEN {<<id, {<<"a", InitVal>>}>> : id \in InitIds \cap Ids} ELSE {}] >>
                   ELSE << >>
 
 Log(rec) == hist' = IF Gen THEN Append(hist, rec) ELSE hist
@@ -113,6 +120,20 @@ SetBulkAttrs(st, m) ==
     /\ aliased' = aliased \ {<<st, id>> : id \in DOMAIN m}
     /\ UNCHANGED leak
     /\ Log([op |-> "SetBulkAttrs", st |-> st, bulk |-> BPairs(m)])
+
+\* several set calls in ONE query (executeBulkSetRowAttrs merges the calls of a query
+\* that consists of SetRowAttrs calls only, per row, before it writes): the outcome is
+\* that of the calls applied one after the other - a later call wins, a null deletes
+\* what is stored as well as what an earlier call of the same query set
+BulkQuery(st, cs) ==
+    LET ids == {cs[i][1] : i \in 1..Len(cs)}
+    IN  /\ attrs'   = [attrs EXCEPT ![st] = [id \in Ids |-> FoldCalls(@[id], id, cs, 1)]]
+        /\ touched' = [touched EXCEPT ![st] = @ \cup ids]
+        /\ cached'  = cached \cup {<<st, id>> : id \in ids}
+        /\ aliased' = aliased \ {<<st, id>> : id \in ids}
+        /\ UNCHANGED leak
+        /\ Log([op |-> "BulkQuery", st |-> st,
+                calls |-> [i \in 1..Len(cs) |-> <<cs[i][1], UPairs(cs[i][2])>>]])
 
 \* ---- reads ------------------------------------------------------------------
 Read(st, id) ==
@@ -169,6 +190,12 @@ Next ==
     \/ /\ (Gen => Len(hist) < Depth)
        /\ \/ "SetAttrs" \in Ops /\ \E st \in Pick(Stores), id \in Pick(Ids), u \in Pick(Updates) : SetAttrs(st, id, u)
           \/ "SetBulkAttrs" \in Ops /\ \E st \in Pick(Stores), m \in Pick(Bulks) : SetBulkAttrs(st, m)
+          \/ "BulkQuery" \in Ops /\
+               \E st \in Pick(Stores), id1 \in Pick(Ids), u1 \in Pick(Updates), same \in Pick(BOOLEAN),
+                  idx \in Pick(Ids), u2 \in Pick(Updates), three \in Pick(BOOLEAN), u3 \in Pick(Updates) :
+                  LET id2 == IF same THEN id1 ELSE idx
+                  IN  BulkQuery(st, IF three THEN << <<id1, u1>>, <<id2, u2>>, <<id1, u3>> >>
+                                             ELSE << <<id1, u1>>, <<id2, u2>> >>)
           \/ "Read" \in Ops /\ \E st \in Pick(Stores), id \in Pick(Ids) : Read(st, id)
           \/ "CallerMutates" \in Ops /\ (IF Gen THEN CallerMutatesG ELSE CallerMutatesM)
           \/ "Reopen" \in Ops /\ \E st \in Pick(Stores) : Reopen(st)
